@@ -294,6 +294,9 @@ func genCA(r *hx.Rng) caCase {
 			a = addr(10 + r.Intn(5))
 		}
 		key := caseVariants(r, a)
+		if r.Intn(25) == 0 { // keys that are not addresses: HexToAddress maps them to the zero / a short address
+			key = []string{"", "0x", "zz", "0x5", "0X05"}[r.Intn(5)]
+		}
 		for tries := 0; used[key] && tries < 10; tries++ {
 			key = caseVariants(r, a)
 		}
@@ -388,7 +391,18 @@ func runCA(w *world, c caCase, mm map[string]types.TransferData, inv []common.Ad
 	return
 }
 
-func addrN(a common.Address) string { return new(big.Int).SetBytes(a[:]).String() + "%N" }
+// addrN: the model only compares addresses for equality, so an address travels as a small number: every
+// address the harness uses is addr(i) (possibly spelled differently); i is injective on them. Anything
+// else travels in full. (49-digit literals cost Coq's parser ~1 ms each.)
+func addrN(a common.Address) string {
+	i := int(a[18])<<8 | int(a[19])
+	if a == addr(i) {
+		return strconv.Itoa(i) + "%N"
+	}
+	// anything else (zero address from an unparsable key, short keys): in full, shifted out of the small range
+	return new(big.Int).Add(new(big.Int).SetBytes(a[:]), new(big.Int).Lsh(big.NewInt(1), 200)).String() + "%N"
+}
+func addrFull(a common.Address) string { return new(big.Int).SetBytes(a[:]).String() + "%N" }
 func zLit(v *big.Int) string        { return "(" + v.String() + ")%Z" }
 
 // ---------------------------------------------------------------------------------------------
@@ -573,8 +587,9 @@ func main() {
 	}
 	res := hx.NewResult(fmt.Sprintf("every generated input is executed %d times, each on a fresh AccountDB and trie cache over the same committed store, and all "+
 		"runs must agree on (state root, receipts: status/msg/gas/logs, receipts tree, evicted list). Inputs: ChangeAssets target maps (1-6 entries, sender "+
-		"itself / aliases by case, prefix, padding / zero and unparsable amounts / sums around the balance), blocks of 1-5 transactions (transfer, miner "+
-		"apply/add/refund, contract create/call) with the after() stage, shuffled admissible tx lists, multi-height refund data. "+
+		"itself / aliases by case, prefix, padding / non-address keys / zero and unparsable amounts / sums around the balance; plus every map over 4 keys "+
+		"(2 spellings of the sender, 2 of another account) x a small amount set), blocks of 1-5 transactions (transfer, miner apply/add/refund/change-account, "+
+		"operator node, contract create/call of a contract that stores the EVM block context) with the after() stage, shuffled admissible tx lists, multi-height refund data, sub-chain reward call data. "+
 		"non-trivial = distinct input with at least two entries at some map iteration site (so that an order exists)", reps))
 	cs := hx.NewCases(a.Out, "From V.C01 Require Import Harness.", "c01case", "check", 300)
 
@@ -612,6 +627,33 @@ func main() {
 		{Source: addrHex(addr(1)), Balance: "10", Extra: fmt.Sprintf(`{%q:{"balance":"10"},%q:{"balance":"5"}}`, strings.ToUpper(addrHex(addr(1)))[2:], addrHex(addr(10)))},
 		{Source: addrHex(addr(1)), Balance: "10", Extra: fmt.Sprintf(`{%q:{"balance":"4"},%q:{"balance":"6"}}`, addrHex(addr(10)), addrHex(addr(11)))},
 		{Source: addrHex(addr(1)), Balance: "10", Extra: `{}`},
+	}
+	// exhaustive small scope: every map over the four keys {sender, sender in upper case without prefix,
+	// other, other with 0X prefix} with amounts from a small set around the balance 10
+	{
+		src := addr(1)
+		oth := addr(10)
+		keys4 := []string{addrHex(src), strings.ToUpper(hex.EncodeToString(src[:])), addrHex(oth), "0X" + hex.EncodeToString(oth[:])}
+		amts := []string{"", "0", "10", "5.000000000000000001"}
+		if a.Tier == "thorough" {
+			amts = append(amts, "4.999999999999999999")
+		}
+		total := 1
+		for range keys4 {
+			total *= len(amts)
+		}
+		for code := 1; code < total; code++ {
+			c, parts := code, []string{}
+			for _, k := range keys4 {
+				am := amts[c%len(amts)]
+				c /= len(amts)
+				if am != "" {
+					parts = append(parts, fmt.Sprintf("%q:{\"balance\":%q}", k, am))
+				}
+			}
+			fixedCA = append(fixedCA, caCase{Source: addrHex(src), Balance: "10", Extra: "{" + strings.Join(parts, ",") + "}"})
+		}
+		res.Note(fmt.Sprintf("ChangeAssets small scope: all %d non-empty maps over 4 keys (sender x2 spellings, other x2 spellings) x %d amounts", total-1, len(amts)-1))
 	}
 	for i := 0; i < nCA+len(fixedCA); i++ {
 		var c caCase
@@ -873,10 +915,10 @@ func main() {
 		var tl, ol []string
 		for _, t := range list {
 			tl = append(tl, fmt.Sprintf("(%s, %s, %s, %s, %s)", hx.CoqN(t.RequestId), hx.CoqStr(t.Source),
-				new(big.Int).SetBytes(common.FromHex(t.Source)).String()+"%N", hx.CoqN(t.Nonce), new(big.Int).SetBytes(t.Hash.Bytes()).String()+"%N"))
+				hx.CoqHex(common.FromHex(t.Source)), hx.CoqN(t.Nonce), hx.CoqHex(t.Hash.Bytes())))
 		}
 		for _, t := range ref {
-			ol = append(ol, new(big.Int).SetBytes(t.Hash.Bytes()).String()+"%N")
+			ol = append(ol, hx.CoqHex(t.Hash.Bytes()))
 		}
 		cs.Add(fmt.Sprintf("CSort %s %s", hx.CoqList(tl), hx.CoqList(ol)), map[string]interface{}{"site": "sort", "sorted": order(ref)})
 	}
@@ -1007,10 +1049,10 @@ func main() {
 			sort.Strings(pk)
 			var pl, ml []string
 			for _, k := range pk {
-				pl = append(pl, fmt.Sprintf("(%s, %s)", hx.CoqStr(k), addrN(props[k])))
+				pl = append(pl, fmt.Sprintf("(%s, %s)", hx.CoqStr(k), addrFull(props[k])))
 			}
 			for _, id := range validatorIds {
-				ml = append(ml, addrN(vals[common.ToHex(id)]))
+				ml = append(ml, addrFull(vals[common.ToHex(id)]))
 			}
 			var variants []string
 			for k := range outs {
@@ -1027,7 +1069,7 @@ func main() {
 				if len(body)%64 != 0 || !strings.HasPrefix(code, "0x7822b9ac") {
 					words = append(words, "0%N")
 				}
-				cs.Add(fmt.Sprintf("CGenCode %s %s %s %s", addrN(props[common.ToHex(header().Castor)]), hx.CoqList(pl), hx.CoqList(ml), hx.CoqList(words)),
+				cs.Add(fmt.Sprintf("CGenCode %s %s %s %s", addrFull(props[common.ToHex(header().Castor)]), hx.CoqList(pl), hx.CoqList(ml), hx.CoqList(words)),
 					map[string]interface{}{"site": "generateCode", "code": code})
 			}
 		}
